@@ -85,6 +85,32 @@ CHECKS = {
         tech="complete enumeration of a finite space (classes x declared children x groups) with a construct/write/read probe each",
         sec="C13",
     ),
+    "C03": dict(
+        cat="exploration",
+        text="Complete over (class, declared data element, lexical form of its type): the smallest document containing the element, its text set to every form of the "
+        "type's lexical alphabet (all entity escapes, both decimal separators, signs, leading zeros, every date/time notation x 10 offsets, enumeration tokens), rendered by "
+        "the reference renderer as XML and SGML, converted by the library and compared both ways with the (path, value) pairs the reference type rules compute.",
+        note="Quick tier walks first/last/every 7th enumeration token, thorough all; reference type rules and renderer trusted (self-checked).",
+        tech="exhaustive enumeration of (class, element, lexical form) with a differential oracle (independent type rules)",
+        sec="C03",
+    ),
+    "C04": dict(
+        cat="fault_enumeration",
+        text="Every constraint of every class (read from the class dictionaries: required, groups, enumerations, string/integer limits, sequence order, "
+        "single occurrence, list member types, undeclared keywords) x both construction routes x a violating and a boundary variant one change away from a valid "
+        "instance; violating must raise, boundary must build, every built instance is re-validated independently.",
+        note="Hand-written validate_args rules are only honoured (to build valid baselines), not enumerated as constraints.",
+        tech="exhaustive single-fault enumeration over declared constraints x construction routes",
+        sec="C04",
+    ),
+    "C07": dict(
+        cat="fault_enumeration",
+        text="Every class x MIN/MAXS/two-members-per-kind documents x every child position (thorough: also one level deeper) x 6 kinds of unknown or vendor item x "
+        "3 routes, plus all position pairs x 5 item pairs on MIN; the conversion must succeed and equal the conversion of the clean document.",
+        note="Insertions are made by the harness into reference-rendered documents; at most two insertions at once.",
+        tech="exhaustive fault-injection enumeration (positions x item kinds x routes) with a differential oracle",
+        sec="C07",
+    ),
 }
 
 NA_REASON = "check not built yet in this revision of /verif (planned: see DESIGN.md section 3); nothing is claimed for it"
